@@ -16,3 +16,17 @@ Definition has_body (tbl : list (string * (string * string))) (k sig body : stri
   end.
 
 Definition mem_string (s : string) (l : list string) : bool := existsb (String.eqb s) l.
+
+Fixpoint list_eqb (a b : list string) : bool :=
+  match a, b with
+  | [], [] => true
+  | x :: a', y :: b' => String.eqb x y && list_eqb a' b'
+  | _, _ => false
+  end.
+
+Fixpoint pairs_eqb (a b : list (string * string)) : bool :=
+  match a, b with
+  | [], [] => true
+  | (x1, x2) :: a', (y1, y2) :: b' => String.eqb x1 y1 && String.eqb x2 y2 && pairs_eqb a' b'
+  | _, _ => false
+  end.
